@@ -144,6 +144,37 @@ def check(case) -> Outcome:
         bad = compare_estimand(est, g, xs, ys, scm, conds=zs)
         if bad:
             return fail(bad.pop("kind"), **bad, estimand=text, model=scm.params(), model_index=k)
+    # objects DERIVED from the used Identification through its public methods (exchange_*, with_treatments) ask a
+    # different question; their answers are judged like any other, whatever the parent object remembered
+    import zlib
+
+    h = zlib.crc32(out.key.encode())
+    derived = []
+    if xs:
+        w = sorted(xs)[h % len(xs)]
+        derived.append(("exchange_action_with_observation", w, [x for x in xs if x != w], zs + [w]))
+    if len(zs) > 1:
+        z = sorted(zs)[(h >> 3) % len(zs)]
+        derived.append(("exchange_observation_with_action", z, xs + [z], [c for c in zs if c != z]))
+    rest = sorted(set(g["nodes"]) - set(xs) - set(ys) - set(zs))
+    if rest:
+        n = rest[(h >> 6) % len(rest)]
+        derived.append(("with_treatments", n, xs + [n], zs))
+    for meth, var, xs2, zs2 in derived[(h >> 9) % 2 :: 2] if len(derived) > 1 else derived:
+        try:
+            arg = V(var) if meth != "with_treatments" else {V(var)}
+            d_ident = getattr(ident, meth)(arg)
+            est_d = id_c.idc(d_ident)
+        except Unidentifiable:
+            labels.add("derived-object:unidentifiable")
+            continue
+        except Exception as e:
+            return fail("idc-on-derived-object-raised-other-than-Unidentifiable", method=meth, variable=var, exc=repr(e)[:300])
+        labels.add("derived-object:" + meth)
+        scm = SCM(g, case["mseed"], max_card=2, clique_mode=case["clique"])
+        bad = compare_estimand(est_d, g, xs2, ys, scm, conds=zs2)
+        if bad:
+            return fail("derived-object:" + bad.pop("kind"), **bad, method=meth, variable=var, derived_query={"X": xs2, "Y": ys, "Z": zs2}, estimand=est_d.to_y0(), model=scm.params())
     out.nontrivial = bool(rule2) and bool(g["bi"])
     out.labels = sorted(labels)
     return out
